@@ -189,6 +189,7 @@ func runC15(p *core.Prog, r *core.Result) {
 		"R15.4 progress: every loop of the decoder either consumes input (and a short read panics) or is driven by a bounded induction variable; decode is not recursive",
 		"R15.5 every value the decoder can push or return is non-nil (constructors, conversions, previously pushed values, or the unpickler's result, whose in-module implementations never return nil without an error)",
 		"R15.9 a record whose stamp decodes to a well-formed but smaller or different value is not silently up to date: diffEnv reports 'unchanged' only on whole-value equality of the recorded and the current environment (shared with C01 R1.13)",
+		"R15.10 decoded values are only handed to traversals that are depth-bounded or cycle-safe (EqualDepth, DiffDepth, String): no function of the module calls this Starlark fork's json.encode - which recurses without a depth limit or cycle detection - on a value that can hold decoded data; a byte string can make the decoder build a list that contains itself, and the recursion ends in the runtime's unrecoverable stack-overflow abort",
 		"R15.7 record consumers outside the recover scope (load/upToDate/diffEnv of functions and sources) contain no unguarded len(x)-k / constant index on decoded data, no unchecked type assertion, and no reachable explicit panic other than the frozen internal-invariant one",
 	}
 	r.NotDecided = []string{"memory exhaustion from declared lengths (excluded by the property)", "stack depth of starlark Hash/Equal on deeply nested decoded data", "panics inside go.starlark.net (trusted)", "32-bit platforms: int(uint32) lengths >= 2^31 (needs > 2 GiB of input; outside the property's bound)"}
@@ -316,6 +317,9 @@ func runC15(p *core.Prog, r *core.Result) {
 
 	// ---- R15.7 record consumers
 	checkRecordConsumers(p, r)
+
+	// ---- R15.10 no unbounded traversal of decoded values
+	checkUnboundedTraversals(p, r, "R15.10")
 
 	// ---- R15.9 a smaller or different decoded stamp is never "unchanged"
 	checkEnvVerdictWholeEquality(p, r, "R15.9")
@@ -877,6 +881,85 @@ func checkRecordConsumers(p *core.Prog, r *core.Result) {
 		})
 	}
 	r.Floor("R15.7", nSites, 2, "crash-source sites on the record-loading path")
+}
+
+// checkUnboundedTraversals implements R15.10.
+func checkUnboundedTraversals(p *core.Prog, r *core.Result, rule string) {
+	const pkgJSON = "go.starlark.net/lib/json"
+	fromJSONModule := func(v ssa.Value) bool {
+		return core.DependsOn(v, core.SliceOpts{Stores: true, ThroughCall: func(*ssa.Call) bool { return true }}, func(x ssa.Value) bool {
+			g, ok := x.(*ssa.Global)
+			return ok && g.Pkg != nil && g.Pkg.Pkg.Path() == pkgJSON
+		})
+	}
+	// module globals initialised from lib/json.Module (var encode = json.Module.Members["encode"])
+	jsonGlobals := map[*ssa.Global]bool{}
+	for _, fn := range p.ModuleFuncs() {
+		if fn.Name() != "init" && !strings.HasPrefix(fn.Name(), "init#") {
+			continue
+		}
+		core.Instrs(fn, func(in ssa.Instruction) {
+			st, ok := in.(*ssa.Store)
+			if !ok {
+				return
+			}
+			if g, ok := st.Addr.(*ssa.Global); ok && fromJSONModule(st.Val) {
+				jsonGlobals[g] = true
+			}
+		})
+	}
+	isJSONFn := func(v ssa.Value) bool {
+		if ld, ok := v.(*ssa.UnOp); ok && ld.Op == token.MUL {
+			if g, ok := ld.X.(*ssa.Global); ok && jsonGlobals[g] {
+				return true
+			}
+		}
+		return fromJSONModule(v)
+	}
+	n := 0
+	evNames := eventsMethods(p)
+	perOwner := map[*ssa.Function]int{}
+	for _, fn := range p.ModuleFuncs() {
+		for _, c := range core.Calls(fn) {
+			if !core.IsCallTo(c, pkgStar, "Call") || len(c.Common().Args) < 3 || !isJSONFn(c.Common().Args[1]) {
+				continue
+			}
+			n++
+			// what is encoded: the elements of the argument tuple
+			holdsValues := false
+			core.DependsOn(c.Common().Args[2], core.SliceOpts{Stores: true}, func(x ssa.Value) bool {
+				if _, isIface := x.Type().Underlying().(*types.Interface); isIface {
+					if _, isConst := x.(*ssa.Const); !isConst {
+						holdsValues = true
+					}
+				}
+				return false
+			})
+			// name the site after the observer method it serves (stable when the call moves into a helper)
+			owner := fn
+			if !(fn.Signature.Recv() != nil && evNames[fn.Name()]) {
+				var cands []*ssa.Function
+				for _, m := range p.ModuleFuncs() {
+					if m.Pkg == fn.Pkg && m.Signature.Recv() != nil && evNames[m.Name()] && m.Parent() == nil && staticClosure(p, m)[fn] {
+						cands = append(cands, m)
+					}
+				}
+				sort.Slice(cands, func(i, j int) bool { return cands[i].String() < cands[j].String() })
+				if len(cands) > 0 {
+					owner = cands[0]
+				}
+			}
+			perOwner[owner]++
+			construct := fmt.Sprintf("%s#json-encode-of-decoded-value-%d", fname(owner), perOwner[owner])
+			if holdsValues {
+				r.Bad(rule, construct, p.InstrPos(c.(ssa.Instruction)), "a value that can hold decoded data (the environment diff, whose old side is the decoded record) is handed to json.encode, which recurses without a depth limit or cycle detection: a record whose stamp decodes to a list that contains itself (] MEMOIZE BINGET 0 APPEND) makes the process die with the runtime's 'fatal error: stack overflow' instead of reporting an error")
+			} else {
+				r.OK(rule, construct, p.InstrPos(c.(ssa.Instruction)), "json.encode is applied to constants only")
+			}
+		}
+	}
+	r.Analysed["json_encode_sites"] = n
+	r.OK(rule, "module#json-encode-sites", "-", "%d call site(s) of json.encode in the module examined (%d module variable(s) hold the json module's functions)", n, len(jsonGlobals))
 }
 
 // isDictItem: v is an element of the slice returned by (*starlark.Dict).Items().
